@@ -21,12 +21,13 @@ fn gen_fair(src: &mut Src<'_>) -> SchedCase {
     }
     let len = src.range(20, 90);
     for _ in 0..len {
-        let t = match src.weighted(&[8, 3, 2, 1, 1]) {
+        let t = match src.weighted(&[8, 3, 2, 1, 1, 1]) {
             0 => Tok::Recv,
             1 => Tok::Burst(src.below(n_keys) as u8),
             2 => Tok::Push(src.below(n_keys) as u8),
             3 => Tok::Settle,
-            _ => Tok::Insert(src.below(n_keys) as u8),
+            4 => Tok::Insert(src.below(n_keys) as u8),
+            _ => Tok::Migrate,
         };
         toks.push(t);
     }
@@ -70,12 +71,13 @@ pub fn run(ctx: &Ctx) -> (Report, PropertyMeta) {
     let total = report.evaluations;
     health(&mut report, "wake-or-insert-inside-window", total, 50);
     health(&mut report, "two-busy-streams", total, 50);
+    health_abs(&mut report, "receiver-moved-to-another-task", 2000);
     let observed = report.measures.get("max_bypass_observed").copied().unwrap_or(0);
     report.notes.push(format!("largest number of other-stream deliveries that went ahead of a ready stream in the exhaustive part: {} (bound asserted: 2n)", observed));
 
     let meta = PropertyMeta {
         level: "exploration",
-        rule: "the library's real fair queue driven by schedule strings over {Push i, Burst i, Close i, Insert i, Remove i, Recv, Settle}; tokens inside a stream poll run while the queue lock is released (before the stream decides and after it decided but before it is put back). ALL valid strings to the stated depth for 2 and 3 streams, proptest strings (generic, fairness-focused with several busy streams, and with stale wakes) for up to 6 streams. Oracles: (no lost wake-up) the receiver is re-polled only when an executor would (its waker fired since it last returned Pending); whenever it is parked with no wake pending - at every Settle token and after the schedule - no connected stream may hold an undelivered item; end-of-stream only with no streams and block_on_no_clients=false. (bounded bypass) from the moment a stream holds an item until it is served, at most 2n deliveries from other streams (n = streams ever inserted; bursts of 14 items make any monopolising order exceed the bound). Non-trivial = a wake or insert lands inside a window, or two streams each hold >= 2 items at some point; distinct by schedule".into(),
+        rule: "the library's real fair queue driven by schedule strings over {Push i, Burst i, Close i, Insert i, Remove i, Recv, Settle, Exhaust (streams yield), Migrate (the receiver is moved to another task: new waker, wakes to the old one reach nobody)}; tokens inside a stream poll run while the queue lock is released (before the stream decides and after it decided but before it is put back). ALL valid strings to the stated depth for 2 and 3 streams, proptest strings (generic, fairness-focused with several busy streams, and with stale wakes) for up to 6 streams. Oracles: (no lost wake-up) the receiver is re-polled only when an executor would (its waker fired since it last returned Pending); whenever it is parked with no wake pending - at every Settle token and after the schedule - no connected stream may hold an undelivered item; end-of-stream only with no streams and block_on_no_clients=false. (bounded bypass) from the moment a stream holds an item until it is served, at most 2n deliveries from other streams (n = streams ever inserted; bursts of 14 items make any monopolising order exceed the bound). Non-trivial = a wake or insert lands inside a window, or two streams each hold >= 2 items at some point; distinct by schedule".into(),
         assumptions: vec![
             "a correct executor re-polls a task that was woken while running; waker registration once per poll call is therefore not flagged".into(),
             "fairness is not asserted on schedules containing stale wakes (an old waker clone legitimately re-queues its stream with an old ticket)".into(),
@@ -93,7 +95,7 @@ pub fn replay(_ctx: &Ctx, kind: &str, case: &Value) -> Vec<Failure> {
             let first: Result<SchedCase, _> = parse_case(&case["first"]);
             first.map(|c| {
                 let depth = case["depth"].as_u64().unwrap_or(5) as usize;
-                let alpha = fq::alphabet(c.n_keys, false);
+                let alpha = fq::alphabet_m(c.n_keys, false);
                 let mut fails = vec![];
                 let mut visit = |_t: &[Tok], r: &fq::RunResult| {
                     fails.extend(r.c06.clone());
